@@ -771,6 +771,56 @@ func MuLock(label string, l Locker) {
 	}
 }
 
+// MuTryLock replaces X.TryLock(): a scheduling point, then the attempt against the simulator's lock table
+// (which mirrors the real lock exactly, because only one task runs at a time).
+func MuTryLock(label string, l Locker) bool {
+	s := cur()
+	if s == nil || atomic.LoadInt32(&s.dead) != 0 {
+		return l.TryLock()
+	}
+
+	return s.simTryLock(l, LockW, label, func() bool { return l.TryLock() })
+}
+
+// MuTryRLock replaces X.TryRLock().
+func MuTryRLock(label string, l RLocker) bool {
+	s := cur()
+	if s == nil || atomic.LoadInt32(&s.dead) != 0 {
+		return l.TryRLock()
+	}
+
+	return s.simTryLock(l, LockR, label, func() bool { return l.TryRLock() })
+}
+
+func (s *Sim) simTryLock(l interface{}, kind LockKind, label string, real func() bool) bool {
+	t := s.cur
+	if t != nil {
+		s.yield(t, label, true) // whether the lock is free depends on who ran before this point
+	}
+
+	s.mu.Lock()
+	free := s.lockFree(l, kind, t)
+
+	if free && t != nil {
+		s.acquire(l, kind, t)
+	}
+	s.mu.Unlock()
+
+	if !free {
+		return false
+	}
+
+	if !real() {
+		panic("zzverifsim: lock table says free but the real lock is taken: " + label)
+	}
+
+	if t != nil && s.race != nil {
+		s.race.acquire(t, l)
+	}
+
+	return true
+}
+
 // MuUnlock replaces X.Unlock().
 func MuUnlock(label string, l Locker) {
 	s := cur()
